@@ -278,7 +278,36 @@ def c04(run):
         extra_assumptions=["argument identity is read from the value (id field / cap of the channel)", "reflect is trusted"])
 
 
-PROPS = {"C04": c04, "C03": c03, "C14": c14, "C15": c15, "C13": c13, "C01": c01, "C02": c02, "C07": c07, "C08": c08, "C09": c09, "C10": c10, "C12": c12}
+# ============================================================== registrar
+def rg_cfg(maxlen, maxdepth, dev=(), emit=True):
+    return ("SPECIFICATION Spec\nCONSTANTS\n MaxLen = %d\n MaxDepth = %d\n EmitCases = %s\n Dev = %s\n" % (maxlen, maxdepth, "TRUE" if emit else "FALSE", vlib.tla_set(dev)) +
+            "INVARIANT ExecIsFlatten\nCONSTRAINT EmitCase\nCHECK_DEADLOCK FALSE\n")
+
+
+def c11(run):
+    quick = run.tier == "quick"
+    run.build_harness()
+    run.tlc("Registrar", rg_cfg(4, 2, dev=["NOPOP"], emit=False), name="RG_neg", expect_violation="ExecIsFlatten")
+    r = run.model_check("Registrar", rg_cfg(4 if quick else 5, 2), name="RG_gen", want_cases=True, heap="24g")
+    cf = vlib.subsample(r["cases_file"], 6000 if quick else 150000, run.seed, run)
+    run.conformance("rg_programs", "registrar", cf, "RegistrarTrace", TRACE_CFG % "", chunk_events=20000)
+    gen = os.path.join(run.work, "rg_rand.jsonl")
+    with open(gen, "w") as fo:
+        p = run.hrun(["registrar", "gen", run.seed, 500 if quick else 30000], stdout=fo)
+    if p.returncode != 0:
+        raise Infra("registrar gen failed: " + p.stderr[-2000:])
+    run.conformance("rg_random", "registrar", gen, "RegistrarTrace", TRACE_CFG % "", chunk_events=20000)
+    return run.finish(
+        rule="TLC enumerates every well-bracketed registration program up to the length bound (groups with 0..1 handlers nested up to "
+             "depth 2, Routes with one/two methods, Any, Get, Combo with 1-2 calls incl. a repeated method, AutoHead on/off) and checks "
+             "that the stack-machine execution equals the positional flat expansion; each program is executed on a real Flame with "
+             "id-logging handlers (all variadic lists passed with spare capacity) and every (method, path) of the concatenation universe "
+             "is requested: handler-id trace, route text and status are validated by TLC against P_Flatten; random programs up to 15 "
+             "instructions and depth 4. Non-trivial = program with >= 2 instructions.",
+        extra_assumptions=["paths of the program universe are static, so the route a request reaches is identified by its text"])
+
+
+PROPS = {"C11": c11, "C04": c04, "C03": c03, "C14": c14, "C15": c15, "C13": c13, "C01": c01, "C02": c02, "C07": c07, "C08": c08, "C09": c09, "C10": c10, "C12": c12}
 
 
 def main():
